@@ -1,8 +1,20 @@
+import XehModel.Model.Enc
 import XehModel.Driver.Codec
 
 namespace Xeh.Driver.C18
+open Xeh Xeh.Codec Xeh.Enc
 
-/-- stub: not modelled yet -/
-def handle (_args : List String) : String := "unsupported"
+def word (w : String) : Option Prog :=
+  if w == ">bitstr" then some wordIntoBitstr else encWord w
+
+/-- `C18 <word> <cell>*` (cells bottom-first) → canonical outcome + stack -/
+def handle (args : List String) : String :=
+  match args with
+  | w :: cells =>
+    match word w, readCells cells with
+    | some p, some cs => outcomeStackStr (p.runStack 0 cs.reverse)
+    | none, _ => "unsupported"
+    | _, none => "bad-args"
+  | _ => "bad-op"
 
 end Xeh.Driver.C18
